@@ -307,6 +307,9 @@ func EnvStubs(st map[string]StubFn) {
 		r.Reached[a[0].(string)] = true
 		return nil
 	}
+	st[vrtPkg+"Thorough"] = func(r *Run, fr *frame, fn *ssa.Function, a []value) value {
+		return os.Getenv("VERIF_TIER") == "thorough"
+	}
 	st[vrtPkg+"Symbolic"] = func(r *Run, fr *frame, fn *ssa.Function, a []value) value { return true }
 	st[vrtPkg+"SetEnv"] = func(r *Run, fr *frame, fn *ssa.Function, a []value) value {
 		v := a[1]
